@@ -253,6 +253,9 @@ def shapes(tier):
            enum_shape("raw_ident", ["r#fn", "r#Type", "Plain"]),
            enum_shape("raw_ident_case_group", ["r#type", "Type", "r#fn", "FN", "Mod"]),
            enum_shape("prefixes", ["Ab", "Abc", "ABCD", "abcd"]),
+           # variants differing only in case that are NOT adjacent in the declaration, around unique ones
+           enum_shape("case_group_split", ["Baz", "Foo", "BaZ"]),
+           enum_shape("case_groups_interleaved", ["Ab", "Cd", "AB", "Other", "ab", "CD"]),
            latin1_enum_shape(),
            error_text_shape()]
     if tier == "quick":
@@ -262,7 +265,7 @@ def shapes(tier):
 
 DESCRIPTION = {
     "grid": "newtypes (tuple, named, generic) over an inner type whose from_str is a total function of the bytes with both outcomes; "
-            "field-less enums: distinct names, a group differing only in case next to a unique name and a prefix of it, one-letter names "
+            "field-less enums: distinct names, a group differing only in case next to a unique name and a prefix of it (adjacent, and split / interleaved with other variants), one-letter names "
             "with a case clash, names with digits, raw-identifier names, names that are prefixes of each other",
     "symbolic": "the string: every ASCII string of <= L bytes, L = longest variant name + 1 (4..6)",
     "oracle": "inner from_str mapped through the constructor; for enums the documented rule restated with eq_ignore_ascii_case",
